@@ -16,6 +16,8 @@
 //                          dispatcher macro of methods.hpp -- with linear kernel, Euclidean distance and
 //                          features callbacks on X
 //                          -> R emb (N x d), R has 0|1, and for a MatrixProjectionImplementation R P, R m
+// TRI randomized and EMB pca randomized first print "R omega" (D x d): the Gaussian test matrix the front-end
+// will draw (std::srand(seed) before and after), so that the Gram-Schmidt norms can be replayed.
 // Numbers are decimal or hex-float on input, hex-float on output.
 #include "spectral_common.hpp"
 
@@ -29,6 +31,22 @@ using namespace vh;
 static bool bad_dim(int v, int hi)
 {
     return v < 0 || v > hi;
+}
+
+// The Gaussian test matrix the randomized front-end is about to draw (eigendecomposition_impl_randomized: D x d,
+// filled row by row from tapkee::gaussian_random(), which draws from std::rand): the same oracle calls in the
+// same order after the same std::srand(seed).  Printed as "R omega"; the generator is re-seeded afterwards so
+// that the front-end draws exactly this matrix.  Lets the check replay the Gram-Schmidt norms of the front-end
+// (is its absolute cut-off `norm < 1e-4` taken?  known finding F36).
+static void announce_omega(unsigned seed, int D, int d)
+{
+    std::srand(seed);
+    DenseMatrix O(D, d);
+    for (int i = 0; i < D; i++)
+        for (int j = 0; j < d; j++)
+            O(i, j) = tapkee::gaussian_random();
+    print_matrix("omega", O);
+    std::srand(seed);
 }
 
 int main()
@@ -65,6 +83,7 @@ int main()
                 is >> solver >> D >> d;
                 DenseMatrix M;
                 if (!is || bad_dim(D, 4096) || bad_dim(d, 4096) || !read_matrix(is, D, D, M)) return bad();
+                if (solver == "randomized") announce_omega(20261002u + (unsigned)k, D, d);
                 tapkee_internal::EigendecompositionResult r = tapkee_internal::eigendecomposition(
                     solver_of(solver), HomogeneousCPUStrategy, tapkee_internal::LargestEigenvalues, M, d);
                 print_matrix("vecs", r.first);
@@ -108,6 +127,7 @@ int main()
                 DenseMatrix X = Xr.transpose();
                 std::vector<IndexType> idx(N);
                 std::iota(idx.begin(), idx.end(), 0);
+                if (solver == "randomized" && meth == "pca" && !bad_dim(d, 4096)) announce_omega(20261002u + (unsigned)k, D, d);
                 eigen_features_callback fcb(X);
                 eigen_kernel_callback kcb(X);
                 eigen_distance_callback dcb(X);
